@@ -131,8 +131,27 @@ type srvRecCall struct {
 	bad    string // non-empty: an argument that is not syntactically valid
 }
 
+// midFailReader yields n bytes and then fails: an upstream that drops the connection.
+type midFailReader struct {
+	r io.Reader
+	n int
+}
+
+func (m *midFailReader) Read(p []byte) (int, error) {
+	if m.n <= 0 {
+		return 0, errors.New("backend reader failed mid-stream")
+	}
+	if len(p) > m.n {
+		p = p[:m.n]
+	}
+	k, err := m.r.Read(p)
+	m.n -= k
+	return k, err
+}
+
 type srvRecBackend struct {
 	*ociregistry.Funcs
+	midFail bool
 	// writerSize is the size of the last writer handed out, when it was closed (-1: none closed)
 	writerSize int64
 	fail       bool
@@ -208,6 +227,9 @@ func (b *srvRecBackend) reader(n int) (ociregistry.BlobReader, error) {
 	data := b.content
 	if n >= 0 && n < len(data) {
 		data = data[:n]
+	}
+	if b.midFail {
+		return &srvRecReader{Reader: &midFailReader{bytes.NewReader(data), 4}, b: b, desc: ociregistry.Descriptor{MediaType: "application/octet-stream", Digest: ociregistry.Digest(sha256Digest(b.content)), Size: int64(len(b.content))}}, nil
 	}
 	return &srvRecReader{Reader: bytes.NewReader(data), b: b, desc: ociregistry.Descriptor{MediaType: "application/octet-stream", Digest: ociregistry.Digest(sha256Digest(b.content)), Size: int64(len(b.content))}}, nil
 }
@@ -452,6 +474,23 @@ func c06Serve(t []string) *served {
 	if optBits[3] == '1' {
 		opts.MaxListPageSize = 2
 	}
+	if len(optBits) > 4 {
+		switch optBits[4] {
+		case '1':
+			opts.LocationsForDescriptor = func(isManifest bool, desc ociregistry.Descriptor) ([]string, error) {
+				return []string{"https://cdn.example/" + string(desc.Digest)}, nil
+			}
+		case '2':
+			opts.LocationsForDescriptor = func(bool, ociregistry.Descriptor) ([]string, error) { return nil, nil }
+		case '3':
+			opts.LocationsForDescriptor = func(bool, ociregistry.Descriptor) ([]string, error) {
+				return nil, errors.New("no location")
+			}
+		}
+	}
+	if len(optBits) > 5 && optBits[5] == '1' {
+		opts.LocationForUploadID = func(id string) (string, error) { return "https://uploads.example/u/" + id, nil }
+	}
 	var backend ociregistry.Interface
 	var rec *srvRecBackend
 	switch backendKind {
@@ -460,6 +499,10 @@ func c06Serve(t []string) *served {
 		backend = rec
 	case "recfail":
 		rec = newSrvRecBackend(true)
+		backend = rec
+	case "recmid":
+		rec = newSrvRecBackend(false)
+		rec.midFail = true
 		backend = rec
 	default:
 		backend = c06MemBackend()
@@ -615,8 +658,11 @@ func (*c06) Gen(rng *RNG, tier string) []Case {
 			}
 			cases = append(cases, Case{Lines: []string{line}})
 		}
-		backend := pick(rng, []string{"rec", "rec", "recfail", "mem"})
+		backend := pick(rng, []string{"rec", "rec", "recfail", "mem", "recmid"})
 		opts := fmt.Sprintf("%d%d%d%d", rng.Intn(2), rng.Intn(2), rng.Intn(2), rng.Intn(2))
+		if rng.Chance(1, 3) {
+			opts += pick(rng, []string{"1", "1", "2", "3"}) + pick(rng, []string{"0", "1"})
+		}
 		line := fmt.Sprintf("srv %s %s %s %s %s", backend, opts, tok(method), tok(target), tok(body))
 		for _, h := range hdrs {
 			line += " " + tok(h)
@@ -733,6 +779,22 @@ func (*c06) Oracle(c Case, impl []string) []Failure {
 			continue
 		}
 		h := s.header
+		if s.status >= 300 && s.status < 400 {
+			// a redirect to a location supplied by Options.LocationsForDescriptor: only the Location matters
+			if h.Get("Location") == "" {
+				fail("srv-redirect-without-location:"+kindNames[s.parsed.Kind], "server_success_headers", "Location header", "")
+			}
+			continue
+		}
+		if t[1] == "recmid" && (s.parsed.Kind == ociverif.ReqBlobGet || s.parsed.Kind == ociverif.ReqManifestGet) {
+			// the backend's reader failed after the response had started: what was sent must be a prefix
+			// of the content and nothing else (the connection is then broken off, which the recorder
+			// cannot show)
+			if !bytes.HasPrefix([]byte("0123456789"), s.body) {
+				fail("srv-garbage-after-partial-body:"+kindNames[s.parsed.Kind], "server_error_shape", "a prefix of the content, nothing appended", string(s.body))
+			}
+			continue
+		}
 		need := func(name string) {
 			if h.Get(name) == "" {
 				fail("srv-missing-header:"+name+":"+kindNames[s.parsed.Kind], "server_success_headers", name+" header", "")
